@@ -53,7 +53,7 @@ def _impl(tier, seed, search):
             out.append((f'del[{i}]', 'del', i))
             out.append((f'set[{i}]', 'set', i))
             out.append((f'insert({i})', 'insert', i))
-        out += [('append', 'append', None), ('extend2', 'extend', 2), ('extend1', 'extend', 1), ('reverse', 'reverse', None), ('clear', 'clear', None), ('pop()', 'pop', None),
+        out += [('append', 'append', None), ('extend2', 'extend', 2), ('extend1', 'extend', 1), ('extend0', 'extend', 0), ('reverse', 'reverse', None), ('clear', 'clear', None), ('pop()', 'pop', None),
                 ('iter', 'iter', None), ('append-foreign', 'append-foreign', None), ('append-multi', 'append-multi', None), ('set-foreign', 'set-foreign', 0), ('insert-multi', 'insert-multi', 0),
                 ('extend-foreign', 'extend-foreign', None), ('insert-foreign', 'insert-foreign', 0), ('append-subclass', 'append-subclass', None),
                 ('set-subclass', 'set-subclass', 0), ('extend-subclass', 'extend-subclass', None), ('insert-subclass', 'insert-subclass', 0)]
@@ -252,6 +252,7 @@ def _corr(tier, seed):
         def arg(a):
             if a == 'f': return SE2() if cname == 'SO2' else SO3()      # for SO2 the foreign object is an instance of its subclass
             if a[0] == 's': return mk(int(a[1:]))
+            if a[1:] in ('-', ''): return build(cname, [])
             return build(cname, [int(t) for t in a[1:].split(',')])
         for op in ops:
             t = op.split(':')
@@ -294,7 +295,7 @@ def _corr(tier, seed):
                     outs.append('l' + sh(X[slice(a, b_, c)]))
                 elif t[0] == 'iter': outs.append('l' + sh(list(iter(X))))
                 elif t[0] == 'append': X.append(int(t[1][1:])); outs.append('ok')
-                elif t[0] == 'extend': X.extend([int(v) for v in t[1][1:].split(',')]); outs.append('ok')
+                elif t[0] == 'extend': X.extend([] if t[1][1:] in ('-', '') else [int(v) for v in t[1][1:].split(',')]); outs.append('ok')
                 elif t[0] == 'insert': X.insert(int(t[1]), int(t[2][1:])); outs.append('ok')
                 elif t[0] == 'pop': outs.append(f'e{X.pop() if t[1] == "_" else X.pop(int(t[1]))}')
                 elif t[0] == 'del': del X[int(t[1])]; outs.append('ok')
@@ -317,7 +318,9 @@ def _corr(tier, seed):
             return f'slice:{o()}:{o()}:{st}'
         if k == 2: return 'iter'
         if k == 3: return f'append:s{fresh()}'
-        if k == 4: return f'extend:m{fresh()},{fresh()}' if g.random() < 0.6 else f'extend:s{fresh()}'
+        if k == 4:
+            r_ = g.random()
+            return f'extend:m{fresh()},{fresh()}' if r_ < 0.5 else ('extend:m-' if r_ < 0.65 else f'extend:s{fresh()}')
         if k == 5: return f'insert:{i}:s{fresh()}'
         if k == 6: return 'pop:_' if g.random() < 0.4 else f'pop:{i}'
         if k == 7: return f'del:{i}'
